@@ -13,6 +13,8 @@ ARG = ["n", j, [keys...]] (result of call site j, indexed) | ["p", name] | ["c",
 from __future__ import annotations
 
 import json
+import zlib
+from collections import Counter
 
 import networkx as nx
 
@@ -174,6 +176,46 @@ def make_fns(spec):
     }
 
 
+XN_DEFAULTS = dict(priority=0, is_sequential=False, setup=False, debug=False, tag=None, unpack_to=None)
+DECL_FORMS = Counter()
+
+
+def _form(name, salt, n):
+    return zlib.crc32(("%s|%s" % (name, salt)).encode()) % n
+
+
+def declare_xn(fn, kw, name, salt=""):
+    """Every documented way of turning a function into a node: `@xn(**kw)`, the call form `xn(f, **kw)`, both with only
+    the non-default options spelled out, and bare `xn(f)` / `@xn` when there is nothing to say."""
+    from tawazi import Resource, xn
+
+    short = {k: v for k, v in kw.items() if not (k in XN_DEFAULTS and v == XN_DEFAULTS[k]) and not (k == "resource" and v == Resource.thread)}
+    form = _form(name, salt, 4)
+    DECL_FORMS["xn_form_%d" % form] += 1
+    if form == 0:
+        return xn(**kw)(fn)
+    if form == 1:
+        return xn(fn, **kw)
+    if form == 2:
+        return xn(**short)(fn) if short else xn(fn)
+    return xn(fn, **short)
+
+
+def declare_dag(fn, kw, name, salt=""):
+    from tawazi import dag
+
+    short = {k: v for k, v in kw.items() if not (k == "max_concurrency" and v == 1) and not (k == "is_async" and v is False)}
+    form = _form("dag:" + name, salt, 4)
+    DECL_FORMS["dag_form_%d" % form] += 1
+    if form == 0:
+        return dag(**kw)(fn)
+    if form == 1:
+        return dag(fn, **kw)
+    if form == 2:
+        return dag(**short)(fn) if short else dag(fn)
+    return dag(fn, **short)
+
+
 def build_tawazi(spec, plain=None, dag_kwargs=None, extra_env=None, wrap_site=None):
     """exec the source with names bound to xn(...) probes; returns (dag object, env)."""
     from tawazi import Resource, dag, xn
@@ -193,7 +235,7 @@ def build_tawazi(spec, plain=None, dag_kwargs=None, extra_env=None, wrap_site=No
         if fs.get("tag") is not None:
             t = fs["tag"]
             kw["tag"] = tuple(t) if isinstance(t, list) else t
-        xns[name] = xn(**kw)(plain[name])
+        xns[name] = declare_xn(plain[name], kw, name, salt=spec.get("salt", spec.get("name", "")) + str(len(spec["nodes"])))
     env = {"c%d" % i: xns[nd["fn"]] for i, nd in enumerate(spec["nodes"])}
     if extra_env:
         env.update(extra_env)
@@ -204,7 +246,7 @@ def build_tawazi(spec, plain=None, dag_kwargs=None, extra_env=None, wrap_site=No
     kw = dict(max_concurrency=spec.get("mc", 1), is_async=bool(spec.get("is_async", False)))
     if dag_kwargs:
         kw.update(dag_kwargs)
-    d = dag(**kw)(env[spec["name"]])
+    d = declare_dag(env[spec["name"]], kw, spec["name"], salt=str(len(spec["nodes"])) + str(spec.get("mc", 1)))
     return d, env, plain
 
 
